@@ -208,7 +208,7 @@ pub fn all_lenses() -> Vec<Lens> {
         Lens {
             name: "A5a-qualifiers-fine",
             prefixes: vec!["pkg:t/n?"],
-            alphabet: vec!["a", "A", "b", "=", "&", "1", "%26", "%3D", "%41", ".", "-", "_", "!", "+", "%20", SP],
+            alphabet: vec!["a", "A", "z", "Z", "=", "&", "9", "%26", "%3D", "%41", ".", "-", "_", "!", "+", "%20", SP],
             suffixes: vec![""],
             n_quick: 5,
             n_thorough: 7,
@@ -216,7 +216,7 @@ pub fn all_lenses() -> Vec<Lens> {
         Lens {
             name: "A5b-qualifiers-macro",
             prefixes: vec!["pkg:t/n?"],
-            alphabet: vec!["a=1", "A=2", "b=", "b=3", "ab=4", "a_=5", "c=x%26y", "a=%41", "!=1", "&", "a", "=", "%26"],
+            alphabet: vec!["a=1", "A=2", "b=", "b=3", "ab=4", "a_=5", "Z=6", "z=7", "c=x%26y", "a=%41", "!=1", "&", "a", "=", "%26"],
             suffixes: vec!["", "#s"],
             n_quick: 5,
             n_thorough: 7,
@@ -224,7 +224,7 @@ pub fn all_lenses() -> Vec<Lens> {
         Lens {
             name: "A6-checksum-macro",
             prefixes: vec!["pkg:t/n?checksum=", "pkg:t/n?CheckSum="],
-            alphabet: vec!["a:", "A:", "a1:", "b:", "é:", "É:", "ǅ:", "x", ":", ",", "00", "fF", "7", "g", "%3A", "%2C", "%26", "%2541"],
+            alphabet: vec!["a:", "A:", "a1:", "b:", "é:", "É:", "ǅ:", "x", ":", ",", "00", "fF", "7", "g", "%3A", "%2C", "%26", "%2541", " a:"],
             suffixes: vec![""],
             n_quick: 5,
             n_thorough: 7,
@@ -237,12 +237,13 @@ pub fn all_lenses() -> Vec<Lens> {
                 "pkg:pypi/aaaaaaaaaaaaaaaaaaaa",
                 "pkg:nuget/Bbbbbbbbbbbbbbbbbbbb",
                 "pkg:t/cccccccccccccccccccc",
+                "pkg:t/dddddddddddddddddddddd/d",
                 "pkg:t/n@11111111111111111111",
                 "pkg:t/n?k=vvvvvvvvvvvvvvvvvvvv",
                 "pkg:t/n?checksum=a:00000000000000000000",
                 "pkg:t/n#ssssssssssssssssssss",
             ],
-            alphabet: vec!["a", "A", "-", "_", ".", "É", "/", "0"],
+            alphabet: vec!["a", "A", "-", "_", ".", "É", "/", "0", "%2f"],
             suffixes: vec![""],
             n_quick: 5,
             n_thorough: 7,
